@@ -15,7 +15,10 @@ use super::InterfaceDescription;
 #[serde(tag = "method", content = "parameters")]
 pub enum Method<'a> {
     /// Get information about the Varlink service.
-    #[serde(rename = "org.varlink.service.GetInfo")]
+    #[serde(
+        rename = "org.varlink.service.GetInfo",
+        deserialize_with = "no_parameters"
+    )]
     GetInfo,
     /// Get the description of the specified interface.
     #[serde(rename = "org.varlink.service.GetInterfaceDescription")]
@@ -23,6 +26,14 @@ pub enum Method<'a> {
         /// The interface to get the description for.
         interface: &'a str,
     },
+}
+
+/// Accepts the `parameters` of a method without any: `null` or an (empty) object.
+fn no_parameters<'de, D>(deserializer: D) -> core::result::Result<(), D::Error>
+where
+    D: serde::Deserializer<'de>,
+{
+    Option::<serde::de::IgnoredAny>::deserialize(deserializer).map(|_| ())
 }
 
 /// `org.varlink.service` interface replies.
